@@ -30,7 +30,7 @@ func checkC07(c *Ctx) {
 	c.Rule("R4", "triggers: host-change callbacks reach the trigger; removed hosts' connections are stopped; replace resets all")
 	c.Rule("R5", "refresh loop interruptible: blocking ops guarded by upstream.quit, joins, or timers")
 	c.Rule("R6", "nil slot entry: the nil test dominates every dereference (fallback to a seed host)")
-	c.Rule("R7", "refresh rewrites every listed slot (shared with C14.R6)")
+	c.Rule("R7", "refresh rewrites every listed slot (shared with C14.R6); the CLUSTER NODES parser accepts every well-formed view, including masters without slots (shared with C03.R4)")
 
 	trigger := p.Func(redisPkg, "(*upstream).triggerSlotsRefresh")
 	calls := p.Field(redisPkg, "upstream", "createClientCalls")
@@ -387,4 +387,5 @@ func checkC07(c *Ctx) {
 	}
 	c.Expect("R6", 2)
 	checkSlotFill(c, "R7")
+	checkClusterNodesParser(c, "R7")
 }
